@@ -1575,9 +1575,9 @@ def _handle_add_fields_stage(in_collection, unused_database, options):
                 continue
             parts = field.split('.')
             for subfield in parts[:-1]:
-                out_doc[subfield] = out_doc.get(subfield, {})
-                if not isinstance(out_doc[subfield], dict):
-                    out_doc[subfield] = {}
+                # Copy the sub-document: it is shared with the input document.
+                subdoc = out_doc.get(subfield)
+                out_doc[subfield] = dict(subdoc) if isinstance(subdoc, dict) else {}
                 out_doc = out_doc[subfield]
             out_doc[parts[-1]] = out_value
     return out_collection
